@@ -32,7 +32,8 @@ REQUIRED_MONITORS = ["valid-accepted", "invalid-rejected", "convex-ccw-about-nor
 REQUIRED_CLASSES = ["Polygon:valid", "Polygon:crossing", "Polygon:duplicate", "Polygon:too-few", "Polygon:nonplanar",
                     "ConvexPolygon:valid", "ConvexPolygon:interior-point", "ConvexSpheropolygon:valid", "ConvexPolyhedron:valid",
                     "ConvexPolyhedron:interior-point", "ConvexSpheropolyhedron:negative-radius", "Circle:nonpositive",
-                    "Ellipsoid:nonpositive", "Polyhedron:valid"]
+                    "Ellipsoid:nonpositive", "Polyhedron:valid", "malformed:one-dimensional", "malformed:three-dimensional", "malformed:Nx4",
+                    "malformed:empty-list"]
 
 
 def ncases(tier):
@@ -176,8 +177,80 @@ def expect_invalid(rec, label, ctor, info, nan=False):
     rec.violation("invalid-rejected", f"{label}/accepted", dict(info, result=repr(s)[:200]))
 
 
+MALFORMED = ["one-dimensional", "three-dimensional", "Nx1", "Nx4", "empty-list", "scalar", "ragged"]
+MALFORMED_CLASSES = ["Polygon", "ConvexPolygon", "ConvexSpheropolygon", "ConvexPolyhedron", "ConvexSpheropolyhedron", "Polyhedron"]
+_CHILD = r"""
+import sys, warnings
+import numpy as np
+warnings.simplefilter("ignore")
+import coxeter.shapes as cs
+cname = sys.argv[1]
+bad = {"one-dimensional": [1., 2., 3.], "three-dimensional": np.zeros((2, 3, 3)), "Nx1": [[0.], [1.], [2.], [3.]],
+       "Nx4": np.arange(20.).reshape(5, 4) ** 1.5, "empty-list": [], "scalar": 1.0, "ragged": [[0, 0], [1, 0, 0], [0, 1]]}
+mk = {"Polygon": lambda v: cs.Polygon(v), "ConvexPolygon": lambda v: cs.ConvexPolygon(v), "ConvexSpheropolygon": lambda v: cs.ConvexSpheropolygon(v, 0.5),
+      "ConvexPolyhedron": lambda v: cs.ConvexPolyhedron(v), "ConvexSpheropolyhedron": lambda v: cs.ConvexSpheropolyhedron(v, 0.5),
+      "Polyhedron": lambda v: cs.Polyhedron(v, [[0, 1, 2], [0, 2, 3], [0, 3, 1], [1, 3, 2]])}
+for k in sys.argv[2:]:
+    print("BEGIN", k, flush=True)
+    try:
+        mk[cname](bad[k])
+        r = "accepted"
+    except Exception as e:
+        r = type(e).__name__
+    print("END", k, r, flush=True)
+"""
+
+
+def malformed(rec, cname):
+    """Vertex arguments that are not an (N, 2|3) array at all.  Run in a child process: an unvalidated array handed to
+    qhull can take the interpreter down, and that has to be reported, not suffered."""
+    import os
+    import subprocess
+    import sys
+    from .. import bootstrap
+
+    root = os.environ.get("VERIF_REPO_ROOT", "/repo")
+    todo = list(MALFORMED)
+    for _ in range(len(MALFORMED) + 1):
+        if not todo:
+            break
+        try:
+            r = subprocess.run([sys.executable, "-c", _CHILD, cname] + todo, capture_output=True, text=True, timeout=300,
+                               env=dict(os.environ, PYTHONPATH=root))
+        except subprocess.TimeoutExpired:
+            rec.inconc(f"malformed-input child for {cname} timed out")
+            return
+        began, ended = None, {}
+        for line in r.stdout.splitlines():
+            w = line.split()
+            if w[:1] == ["BEGIN"]:
+                began = w[1]
+            elif w[:1] == ["END"]:
+                ended[w[1]] = w[2]
+        for k, outcome in ended.items():
+            rec.cls("malformed:" + k)
+            info = {"class": cname, "vertices_argument": k}
+            if outcome == "ValueError":
+                rec.ok("invalid-rejected")
+            elif outcome == "accepted":
+                rec.violation("invalid-rejected", f"{cname}:malformed-vertex-array/accepted", info)
+            else:
+                rec.violation("invalid-rejected", f"{cname}:malformed-vertex-array/raises-{outcome}-instead-of-ValueError", info)
+            todo.remove(k)
+        if r.returncode != 0 and began is not None and began not in ended:
+            rec.cls("malformed:" + began)
+            rec.violation("invalid-rejected", f"{cname}:malformed-vertex-array/kills-the-interpreter",
+                          {"class": cname, "vertices_argument": began, "child_exit_code": r.returncode, "stderr": r.stderr[-300:]})
+            todo.remove(began)
+        elif r.returncode != 0:
+            rec.inconc(f"malformed-input child for {cname} failed: {r.stderr[-200:]}")
+            return
+
+
 def run_case(i, rng, rec, tier, state):
     try:
+        if i < len(MALFORMED_CLASSES):
+            malformed(rec, MALFORMED_CLASSES[i])
         _run_case(i, rng, rec, tier, state)
     finally:
         later_mutations(rec, state)
